@@ -49,6 +49,9 @@ class Module:
         stringEnd)
 
     rule.ignore(cppStyleComment)
+    # Keep tab characters as they are: by default pyparsing expands tabs to
+    # spaces (column dependent), which changes default-value text copied verbatim.
+    rule.parseWithTabs()
 
     @staticmethod
     def parseString(s: str) -> ParseResults:
